@@ -81,6 +81,7 @@ func ZZHarnessProposerFlow() {
 		H = phase0.Slot(zzNondetRange("dutySlot", 1, 5))
 	}
 	g.bn.blk = &capella.BeaconBlock{Slot: H, ProposerIndex: 7}
+	zzBlkMarshal(g.bn.blk) // the block is known to the token codec from the start (peers may decide on it before we asked for it)
 	duty := &spectypes.Duty{Type: spectypes.BNRoleProposer, Slot: H, ValidatorIndex: 7}
 	epoch := spectypes.PraterNetwork.EstimatedEpochAtSlot(H)
 	dr, _ := g.bn.DomainData(epoch, spectypes.DomainRandao)
@@ -91,6 +92,20 @@ func ZZHarnessProposerFlow() {
 	zzPhase = 0
 	zzAssume(err == nil)
 	zzAssert(len(g.km.sigs) == 1 && g.km.sigs[0].domain == spectypes.DomainRandao && g.km.sigs[0].root == randaoRoot, "one-randao-signature-for-the-duty-epoch-at-duty-start")
+
+	// ---- decided certificates arriving while the RANDAO shares are still being collected (no consensus instance is
+	// running yet: whatever they decide - the previous duty's height, a later one, or the duty's own slot - it is not
+	// a decision of this duty's running instance, so nothing may be signed)
+	ownValueEarly, _ := zzCDEncode(&spectypes.ConsensusData{Duty: *duty, Version: spec.DataVersionCapella, DataSSZ: []byte{0xB0, 1}})
+	for e := 0; e < int(zzParam("EARLY")); e++ {
+		h := specqbft.Height(uint64(H) + zzNondetRange("earlyDh", 0, 2) - 1)
+		zzPhase = 2
+		_ = g.run.ProcessConsensus(g.lg, g.decided(h, 1, ownValueEarly, q+zzChoose("earlyExtraSigners", 2)))
+		zzPhase = 0
+		zzReach("early-certificate")
+		zzAssert(len(g.km.sigs) == 1, "no-signature-for-a-decision-that-arrives-before-consensus-started")
+		zzAssert(g.run.GetState().DecidedValue == nil, "no-decided-value-recorded-before-consensus-started")
+	}
 
 	// ---- pre-consensus
 	if zzParam("PRE") == 1 {
